@@ -43,7 +43,10 @@ func (k Keeper) AllocateRewards(ctx context.Context, reports []*types.Aggregate,
 		for _, r := range report.Reporters {
 			reporter, found := reportersMap[r.Reporter]
 			if found {
+				// a reporter's power can differ between the aggregates paid together:
+				// accumulate the power it actually contributed
 				reporter.Reports++
+				reporter.Power += r.Power
 			} else {
 				reporter = ReportersReportCount{
 					Power:   r.Power,
@@ -76,7 +79,8 @@ func (k Keeper) AllocateRewards(ctx context.Context, reports []*types.Aggregate,
 	for i, reporter := range sortedReporters {
 		amount := CalculateRewardAmount(
 			reporter.data.Power,
-			reporter.data.Reports,
+			// Power already is the sum over the reporter's reports
+			1,
 			totalPower,
 			// reward is in loya
 			reward,
